@@ -2,11 +2,17 @@
 claim("C09", "lockset dataflow (must/may) over go/cfg with caller-held summaries; lock-order cycle detection; VTA call graph",
       "Decides on every run, for every function of the cesium packages: each mutex acquisition is released exactly once on every exit (PAIR), every access to a field of the frozen guarded-field table holds its lock class locally or in every caller chain from an entry point (GUARD), and the lock-class order graph is acyclic (ORDER). These are necessary conditions of race- and deadlock-freedom for every schedule; serial-order equivalence of the content is not decided.",
       "DESIGN.md §3 C09")
+claim("C03", "CFG guard-edge reachability (go/cfg) + who-may-write call-graph closure + lockset guard",
+      "Decides on every run: only the frozen owner set (or helpers reachable only from it) writes the pointer table and every access is lock-guarded; in index.insert/update each store to the table lies behind an edge proving no overlap (decided with TimeRange.OverlapsWith on the inserted range) and no conflict error is returned after a store; OpenWriter acquires a file only behind !overlap; commit reaches the index only after validateCommitRange succeeded and behind the preset-end test; the writer's prevCommit/Start advance only on the success edge of the index call. Necessary conditions of 'no overlapping domains, failed writes change nothing'; the interval arithmetic on particular timestamps is not decided.",
+      "DESIGN.md §3 C03")
+claim("C02", "CFG ordering/must-pass queries, constant evaluation of file names and open flags, codec layout table agreement, who-may-construct, lockset state at call sites",
+      "Decides on every run: meta.json is only replaced by rename from the temp file after a successful encode and close and is never opened for writing; the index file is rewritten Truncate-then-WriteAt under the persist mutex from one snapshot and opened in one place; the 26-byte pointer encoder and decoder agree field by field and tile the record; domain pointers are constructed only by commit (from the tracked writer's Offset/Len), Delete (from existing pointers) and the decoder; channel deletion removes only a renamed, unparseable directory name after the channel left the map; GC persists the index after the last file rewrite on every success path and swaps offsets and files in one index write section. Necessary conditions of crash consistency; the enumeration of crash points (and the known GC rename/persist window) is not decided.",
+      "DESIGN.md §3 C02")
 for pid, why in {
     "C01": "equality of returned samples with committed samples is decided by index arithmetic over runtime timestamps; no structural necessary condition specific to C01 beyond those claimed under C03/C09 (DESIGN.md §4)",
     "C10": "view arithmetic and accumulate loops over runtime spans/positions; no shape-of-code clause that would not also fire on harmless edits (DESIGN.md §4)",
     "C18": "a biconditional over subject/role/policy contents decided by a pure function of values; the only shape fact would miss every realistic over-permissive edit (DESIGN.md §4)",
 }.items():
     na(pid, why)
-for pid in ["C02","C03","C04","C05","C06","C07","C08","C11","C12","C13","C14","C15","C16","C17","C19","C20"]:
+for pid in ["C04","C05","C06","C07","C08","C11","C12","C13","C14","C15","C16","C17","C19","C20"]:
     na(pid, "check under construction in this session (rules designed in DESIGN.md §3, not yet armed); not claimed until its check is silent on the unchanged tree and detects its seeded variants")
